@@ -121,10 +121,13 @@ pub struct BedCase {
 // value palettes
 
 pub fn palette(p: usize) -> [f32; 4] {
-    match p % 3 {
+    match p % 5 {
         0 => [1.0, 2.0, 3.0, 4.0],
         1 => [0.5, -2.25, 0.0, -0.0],
-        _ => [f32::MAX / 4.0, f32::MIN_POSITIVE, 1e-40, -1e30],
+        2 => [f32::MAX / 4.0, f32::MIN_POSITIVE, 1e-40, -1e30],
+        // content-dependent shortcuts: every value equal to its neighbour; zeros of both signs
+        3 => [1.5, 1.5, 1.5, 1.5],
+        _ => [0.0, 0.0, -0.0, -0.0],
     }
 }
 
